@@ -457,7 +457,12 @@ def static_case(ctx, h, lines, reals):
         if kind == 'function':
             if rng.random() < .15:
                 nm = rng.choice(['class_', '_under', 'if_'])  + str(i)
-            body.append(f'    def {nm}(self{"".join(", " + p for p in pstr)}):\n        return {i}')
+            # what a Python signature may carry beyond its positional parameters: *rest, keyword-only ones (with and
+            # without default), **opts — none of them is a positional parameter, none is required of a caller by position
+            tail = ''
+            if rng.random() < .3:
+                tail = rng.choice([', *rest', ', *rest, sep=" "', ', *, key', ', *, key=None, other', ', **opts', ', *rest, flag=False, **opts'])
+            body.append(f'    def {nm}(self{"".join(", " + p for p in pstr)}{tail}):\n        return {i}')
             entries.append((nm, nm, 'function', ['self'] + ps, nopt))
         elif kind == 'static':
             body.append(f'    @staticmethod\n    def {nm}(self{"".join(", " + p for p in pstr)}):\n        return {i}')
